@@ -11,7 +11,7 @@ for PID in $PIDS; do
     if ! git -C "$D/repo" apply "$(realpath $P)" 2>/dev/null; then echo "$PID $(basename $P) PATCH-FAILED"; git -C /repo worktree remove --force "$D/repo"; rm -rf "$D"; continue; fi
     T=$(cd "$D/repo" && /venv/bin/python -m pytest -q -p no:cacheprovider -x 2>&1 | tail -1 | grep -c ' passed' )
     S=$(date +%s)
-    OUT=$(HX_REPO="$D/repo" HX_NOEVIDENCE=1 HX_REPLAY_DIR="$D/replays" /venv/bin/python -m hx $PID --tier quick 2>&1); RC=$?
+    OUT=$(HX_REPO="$D/repo" HX_NOEVIDENCE=1 HX_FAILFAST=1 HX_REPLAY_DIR="$D/replays" /venv/bin/python -m hx $PID --tier quick 2>&1); RC=$?
     E=$(( $(date +%s) - S ))
     if [ $RC = 1 ]; then V=KILLED; else V="SURVIVED(rc=$RC)"; fi
     echo "$PID $(basename $P .diff) $V tests_pass=$T ${E}s $(echo "$OUT" | grep -m1 '^violation' | cut -c1-150)"
